@@ -80,6 +80,10 @@ func loopBodyEntry(f *ssa.Function, inBody ssa.Instruction) (*ssa.BasicBlock, *s
 }
 
 func checkC10(p *load.Program, r *kit.Report) {
+	importRules(p, r, "C09", "history that Clean drops from memory stays retrievable by hash through the repository's height map: ProcessHeader must have entered every accepted hash under its true height", 2,
+		func(o *kit.Obligation) bool {
+			return strings.Contains(o.Construct, "Repository.ProcessHeader/label:heights")
+		}, "HEIGHT-LABEL")
 	importRules(p, r, "C09", "after Clean the last header file overlaps what is still in memory: a range query must take each height from memory first and from the file only where memory has no answer, or a later reorganisation is answered from the stale part of the file", 4, nil, "LOOKUP-SHAPE")
 	importRules(p, r, "C09", "Clean rewrites the header files: anything the lookups cache from them must be refreshed", 1, nil, "NEW-STATE")
 	importRules(p, r, "C11", "clean writes the best chain and the branches to storage and then drops them from memory: history stays retrievable only if the files have the layout the readers expect", 2,
